@@ -37,6 +37,7 @@ func RunC09T(r *Run) {
 		r.Harness("C09T needs the virtual-time worker binary")
 	}
 	w := BuildWorld(r, c09Profile())
+	w.ShareOpts = false // the two overlapping loads below are two callers: each has its own option values
 	for s := 0; s < 4; s++ {
 		r.T.Mark()
 		if s > 0 && r.Choose("another-scenario", 3) == 0 {
